@@ -245,9 +245,13 @@ def tie_struct(ctx, prop, rep, forest=False):
         if kinds is not None and lines and not any(l.split('|')[0].startswith(kinds) for l in lines):
             continue
         n_rel += 1
-        rep.violate('k1', 'K1 structure: %s (feature dynamic=%s)' % (row['problem'], row['feat']),
+        # a structural difference says the correspondence no longer checks for this definition; whether the
+        # property fails on it is for the behavioural ties (K2/K3/K4) of the same check to show
+        rep.violate('k1', 'K1 structure (correspondence Codegen.v ~ macro output no longer checks): %s (feature dynamic=%s)'
+                    % (row['problem'], row['feat']),
                     {'kind': 'k1s', 'dsl': row['dsl'], 'feature_dynamic': row['feat'],
-                     'only_in_model': row.get('only_in_model'), 'only_in_macro_output': row.get('only_in_macro_output')})
+                     'only_in_model': row.get('only_in_model'), 'only_in_macro_output': row.get('only_in_macro_output')},
+                    no_input=True)
         if n_rel >= 6:
             break
     rep.evals += r['n']
